@@ -1695,9 +1695,13 @@ impl AnnotationStore {
                             });
                         }
                     }
+                    //(a range hands its offsets out begin-aligned: only those are folded into one)
                     (
-                        Selector::AnnotationSelector(annotation, Some(_)),
-                        Selector::AnnotationSelector(annotation2, Some(_)),
+                        Selector::AnnotationSelector(annotation, Some((_, _, OffsetMode::BeginBegin))),
+                        Selector::AnnotationSelector(
+                            annotation2,
+                            Some((_, _, OffsetMode::BeginBegin)),
+                        ),
                     ) => {
                         if annotation2.as_usize() == annotation.as_usize() + 1 {
                             //we can only merge annotations that reference the entire underlying annotation's text and not a subpart of it
@@ -1725,7 +1729,7 @@ impl AnnotationStore {
                             end,
                             with_text: true,
                         },
-                        Selector::AnnotationSelector(annotation, Some(_)),
+                        Selector::AnnotationSelector(annotation, Some((_, _, OffsetMode::BeginBegin))),
                     ) => {
                         if annotation.as_usize() == end.as_usize() + 1 {
                             //we can only merge annotations that reference the entire underlying annotation's text and not a subpart of it
